@@ -9,7 +9,7 @@ Section Walk.
   Context {A : Type}.
   Variable U : Z.                       (* cells per unit *)
   Variable lookup : Z -> res A.         (* unit index -> table entry, Err = the code raises *)
-  Variable emit : A -> Z -> Z -> Z -> list seg.   (* entry, unit idx, cell offset in unit, cell count *)
+  Variable emit : A -> Z -> Z -> Z -> res (list seg).   (* entry, unit idx, cell offset in unit, cell count *)
 
   Fixpoint walk (fuel : nat) (off len : Z) : res (list seg) :=
     if len <=? 0 then Ok [] else
@@ -20,8 +20,9 @@ Section Walk.
       let io := off mod U in
       let n := Z.min len (U - io) in
       do a <- lookup idx;
+      do segs <- emit a idx io n;
       do rest <- walk fuel' (off + n) (len - n);
-      Ok (emit a idx io n ++ rest)
+      Ok (segs ++ rest)
     end.
 
 End Walk.
